@@ -38,12 +38,14 @@ def _tree(rng_bits, jobs):
     return iter(list(jobs))
 
 
-def run_collector(cirq, conc, budget, oracle, chooser, shape_bits=0):
+def run_collector(cirq, conc, budget, oracle, chooser, shape_bits=0, pauli=None):
     """Run Collector.collect_async on a fake sampler.
 
     oracle:  list of answers, each a list of (tag, reps).
     chooser: called at every quiescent point (no duet task ready) with the number of sampler futures in flight;
              returns a batch [(index, ('ok', payload) | ('err', eid)), ...] to complete now, or None to stop.
+    pauli:   None, or dict(samples_per_term, max_samples_per_job): the collector is then the real cirq.PauliSumCollector
+             (an adaptive next_job); its answers are recorded into `oracle` (which must be passed empty) for the model.
     Returns (trace, status, sched) where sched is the list of batches that were applied."""
     import duet
     from duet import impl
@@ -86,6 +88,30 @@ def run_collector(cirq, conc, budget, oracle, chooser, shape_bits=0):
             trace.append(('result', sid_of_job.get(id(job), -1), job.tag, result))
 
     pending = []   # (sid, future) in run_async call order
+    payload_of = {}
+
+    class PCol(cirq.PauliSumCollector):
+        """The real PauliSumCollector; only its job objects are re-wrapped so that the trace can name them."""
+
+        def next_job(self):
+            ask_no[0] += 1
+            j = super().next_job()
+            jobs = []
+            if j is not None:
+                tg = len(keep)
+                w = Job(j.circuit, repetitions=j.repetitions, tag=tg)
+                w.original = j
+                keep.append(w)
+                jobs.append(w)
+                oracle.append([(tg, j.repetitions)])
+            else:
+                oracle.append([])
+            trace.append(('ask', [x.tag for x in jobs]))
+            return jobs[0] if jobs else None
+
+        def on_job_result(self, job, result):
+            trace.append(('result', sid_of_job.get(id(job), -1), job.tag, payload_of.get(id(result), -999)))
+            super().on_job_result(job.original, result)
 
     class Smp(cirq.Sampler):
         def run_sweep(self, *a, **k):
@@ -94,12 +120,29 @@ def run_collector(cirq, conc, budget, oracle, chooser, shape_bits=0):
         def run_async(self, program, *, repetitions):
             f = duet.AwaitableFuture()
             sid = sid_of_circuit.get(id(program), -1)
+            f.program, f.reps = program, repetitions
             pending.append((sid, f))
             trace.append(('start', sid))
             return f
 
+    def make_result(f, p):
+        if pauli is None:
+            return p
+        import numpy as np
+        nq = len([op for op in f.program.all_operations() if cirq.is_measurement(op)][0].qubits)
+        r = cirq.ResultDict(params=cirq.ParamResolver({}), measurements={'out': np.zeros((f.reps, nq), dtype=np.int8)})
+        payload_of[id(r)] = p
+        keep.append(r)
+        return r
+
+    if pauli is not None:
+        q0, q1 = cirq.LineQubit.range(2)
+        the_col = PCol(cirq.Circuit(cirq.H(q0)), 0.5 * cirq.Z(q0) - 0.25 * cirq.X(q1) * cirq.Z(q0) + 2,
+                       samples_per_term=pauli['samples_per_term'], max_samples_per_job=pauli['max_samples_per_job'])
+    else:
+        the_col = Col()
     sch = impl.Scheduler()
-    main = sch.spawn(Col().collect_async(Smp(), concurrency=conc, max_total_samples=budget))
+    main = sch.spawn(the_col.collect_async(Smp(), concurrency=conc, max_total_samples=budget))
     sched, status = [], None
     try:
         while sch.active_tasks:
@@ -120,7 +163,7 @@ def run_collector(cirq, conc, budget, oracle, chooser, shape_bits=0):
                     applied.append((n, o))
                     trace.append(('done', sid, o))
                     if o[0] == 'ok':
-                        f.set_result(o[1])
+                        f.set_result(make_result(f, o[1]))
                     else:
                         f.set_exception(_Err(o[1]))
                 sched.append([(n, o) for n, o in batch])
@@ -163,7 +206,8 @@ def run_collector(cirq, conc, budget, oracle, chooser, shape_bits=0):
             pass
     late = trace[n_before:]
     del trace[n_before:]
-    return trace, status, sched, late, len(pending)
+    energy = the_col.estimated_energy() if pauli is not None else None
+    return trace, status, sched, late, len(pending), energy
 
 
 def collector_oracles(conc, budget, trace, status, late, n_pending):
@@ -319,10 +363,10 @@ def menu_batches(k):
     return m
 
 
-def collector_case(cirq, conc, budget, oracle, chooser, shape_bits=0):
-    trace, status, sched, late, n_pending = run_collector(cirq, conc, budget, oracle, chooser, shape_bits)
+def collector_case(cirq, conc, budget, oracle, chooser, shape_bits=0, pauli=None):
+    trace, status, sched, late, n_pending, energy = run_collector(cirq, conc, budget, oracle, chooser, shape_bits, pauli)
     return dict(conc=conc, budget=budget, oracle=oracle, sched=sched, trace=trace, status=status, late=late,
-                n_pending=n_pending)
+                n_pending=n_pending, energy=energy, pauli=pauli)
 
 
 def enumerate_collector(cirq, conc, budget, oracle, menu_fn, limit):
@@ -408,6 +452,28 @@ def collector_stream(ctx, cirq):
         c = random_collector_case(cirq, rng)
         c['stream'] = 'collector_random'
         cases.append(c)
+    # (3) the real PauliSumCollector as the (adaptive) source of jobs, random completion orders
+    for i in range(24 if ctx.tier == 'quick' else 400):
+        pauli = dict(samples_per_term=rng.choice([3, 5, 8]), max_samples_per_job=rng.choice([1, 2, 3, 100]))
+        conc = rng.choice([1, 2, 3])
+        budget = rng.choice([None, None, None, 4, 7])
+
+        def chooser(k, rng=rng):
+            if k == 0:
+                return []
+            b, kk = [], k
+            for _ in range(rng.choice([1, 1, 2])):
+                b.append((rng.randrange(kk), ('ok', rng.randint(0, 50))))
+                kk -= 1
+                if kk == 0:
+                    break
+            return b
+        c = collector_case(cirq, conc, budget, [], chooser, pauli=pauli)
+        c['stream'] = 'collector_paulisum'
+        cases.append(c)
+        if budget is None and c['status'][0] == 'halted' and abs(c['energy'] - 2.25) > 1e-9:
+            ctx.violation('collector:paulisum-energy', f'PauliSumCollector estimated {c["energy"]} from all-zero samples, expected 2.25: '
+                          'some term received no / foreign results', dict(kind='collector_paulisum', conc=conc, pauli=pauli, sched=c['sched']))
     for c in cases:
         ntake = sum(1 for e in c['trace'] if e[0] == 'take')
         ctx.count(c['stream'], (c['conc'], c['budget'], c['oracle'], c['sched']), nontrivial=ntake >= 2,
@@ -1146,6 +1212,11 @@ def replay(ctx, data):
     cirq = mods['cirq']
     if data.get('kind') == 'collector':
         return replay_collector(cirq, data)
+    if data.get('kind') == 'collector_paulisum':
+        it = iter([[(n, tuple(o)) for n, o in b] for b in data['sched']])
+        c = collector_case(cirq, data['conc'], None, [], lambda k: next(it, None), pauli=data['pauli'])
+        print('trace:', c['trace'], 'energy:', c['energy'])
+        return c['status'][0] != 'halted' or abs(c['energy'] - 2.25) < 1e-9
     if data.get('kind') in ('stream', 'stream_faults'):
         return replay_stream(mods, data)
     print('nothing to replay for kind', data.get('kind'))
